@@ -312,7 +312,15 @@ func c17Body(c *c17Case, o *c17Obs) func() {
 			}
 			o.batches = append(o.batches, c17Batch{items: items, md: md, at: vs.Now().Sub(t0), size: len(items)})
 			for _, it := range items {
-				emitted[it[strings.LastIndexByte(it, '|')+1:]] = true // by item id: a changed context is judged separately
+				id := it[strings.LastIndexByte(it, '|')+1:]
+				emitted[id] = true // by item id: a changed context is judged separately
+				// "emitted no later than the timeout after the first of them arrived" (virtual time; executions in which time
+				// was advanced early are not judged)
+				if a, ok := o.arrival[id]; ok && c.TimeoutMs > 0 && c.Size > 0 && !o.earlyTime {
+					if late := vs.Now().Sub(t0) - a; late > time.Duration(c.TimeoutMs)*time.Millisecond {
+						o.violations = append(o.violations, fmt.Sprintf("late: item %s accepted at %v was emitted at %v, %v after it arrived (timeout %dms)", id, a, vs.Now().Sub(t0), late, c.TimeoutMs))
+					}
+				}
 			}
 		})
 		if err != nil {
@@ -701,6 +709,10 @@ func TestVerif(t *testing.T) {
 	// arrivals spread over (virtual) time: the timer has to be re-armed after a timeout flush and after a size flush
 	cases = append(cases, &c17Case{Signal: "logs", Size: 3, Max: 0, TimeoutMs: 1000, Producers: [][]c17Send{{{Shape: one(1)}, {Shape: one(1), WaitMs: 1500}}, {{Shape: one(1), WaitMs: 2700}}}, Concurrent: false})
 	cases = append(cases, &c17Case{Signal: "traces", Size: 2, Max: 2, TimeoutMs: 1000, Producers: [][]c17Send{{{Shape: one(3), WaitMs: 400}, {Shape: one(1), WaitMs: 700}}, {{Shape: one(1), WaitMs: 2500}}}, Concurrent: false})
+	// a trickle: arrivals less than the timeout apart that never reach send_batch_size - the deadline is that of the FIRST
+	// pending item
+	cases = append(cases, &c17Case{Signal: "logs", Size: 4, Max: 0, TimeoutMs: 1000, Producers: [][]c17Send{{{Shape: one(1)}, {Shape: one(1), WaitMs: 400}, {Shape: one(1), WaitMs: 400}}}, Concurrent: false})
+	cases = append(cases, &c17Case{Signal: "metrics", Size: 5, Max: 0, TimeoutMs: 1000, Producers: [][]c17Send{{{Shape: one(1), WaitMs: 300}, {Shape: one(1), WaitMs: 600}}, {{Shape: one(1), WaitMs: 500}}}, Concurrent: false})
 	// timeout 0 with a send_batch_size that the arrivals do not reach: "send immediately"
 	cases = append(cases, &c17Case{Signal: "logs", Size: 5, Max: 0, TimeoutMs: 0, Producers: [][]c17Send{{{Shape: one(1)}, {Shape: one(2)}}, {{Shape: one(1)}}}, Concurrent: false})
 	cases = append(cases, &c17Case{Signal: "metrics", Size: 5, Max: 5, TimeoutMs: 0, Producers: [][]c17Send{{{Shape: one(2)}}, {{Shape: one(1)}}}, Concurrent: false})
